@@ -1,12 +1,181 @@
 //go:build verif
 
-// placeholder: harness c18 is being written
+// Harness c18 — property C18: primitives, handles, keys and the global registries are safe for
+// concurrent use. Built with the race detector.
+//
+// The process re-executes itself once with GORACE="log_path=<wd>/race halt_on_error=0 exitcode=0
+// history_size=3"; the child does the work (sequential oracle, then G goroutines × M calls on ONE
+// shared object, every result compared with the oracle), the parent turns every race report the
+// child's runtime wrote into a violation.
+//
+// Lines:  !Q conc <object-id> <op> g=<goroutines> m=<calls per goroutine> inputs=<hash>
+// result: seq | diverged:<first mismatch>
 package main
 
-import "github.com/tink-crypto/tink-go/v2/internal/verifharness/hlib"
+import (
+	"crypto/rand"
+	"flag"
+	"fmt"
+	"os"
+	"runtime"
+	"sort"
+	"strings"
+	"time"
+
+	"github.com/tink-crypto/tink-go/v2/internal/verifharness/hlib"
+	"github.com/tink-crypto/tink-go/v2/internal/verifharness/kslib"
+)
+
+var flagOnly = flag.String("only", "", "comma separated sections to run: prims,subtle,multi,handles,keys,registry (default all)")
+var flagKeys = flag.String("keys", "", "substring filter on pool key names (debugging)")
+
+func want(section string) bool {
+	if *flagOnly == "" {
+		return true
+	}
+	for _, s := range strings.Split(*flagOnly, ",") {
+		if s == section {
+			return true
+		}
+	}
+	return false
+}
 
 func main() {
-	o := hlib.Open("c18")
+	flag.Parse()
+	if os.Getenv("C18_CHILD") == "" {
+		os.Exit(parent())
+	}
+	child()
+}
+
+func child() {
+	runtime.GOMAXPROCS(16)
+	o := hlib.Open("C18")
 	defer o.Close()
-	o.Emit("B contract placeholder", "clean", true)
+	seed := *hlib.FlagSeed
+	e := &engine{o: o, seed: seed, start: time.Now(), classT: map[string]time.Duration{}}
+
+	// the pool is generated from a seeded reader (single goroutine); everything concurrent
+	// afterwards uses the real crypto/rand reader again
+	realRand := rand.Reader
+	kslib.InstallDetRand(seed)
+	t0 := time.Now()
+	pool := kslib.BuildPool()
+	rand.Reader = realRand
+	for _, s := range pool.Skipped {
+		o.Count("pool-skipped")
+		fmt.Fprintln(os.Stderr, "c18: pool skipped:", s)
+	}
+	its, problems := items(pool)
+	for _, p := range problems {
+		o.Violate("pool key unusable (harness): %s", p)
+	}
+	if *flagKeys != "" {
+		var f []*item
+		for _, it := range its {
+			if strings.Contains(it.pk.Name, *flagKeys) {
+				f = append(f, it)
+			}
+		}
+		its = f
+	}
+	o.Hist["pool/keys"] = len(pool.Keys)
+	o.Hist["pool/items"] = len(its)
+	tPool := time.Since(t0)
+
+	timings := map[string]time.Duration{"pool": tPool}
+	section := func(name string, f func()) {
+		if !want(name) {
+			return
+		}
+		t := time.Now()
+		f()
+		timings[name] = time.Since(t)
+	}
+	// handle / key / registry sections come first: they need handles and registry paths that no
+	// sequential code has touched more than necessary
+	section("handles", func() { e.handleSection(its) })
+	section("keys", func() { e.keySection(its) })
+	section("registry", func() { e.registrySection(pool, its) })
+	section("prims", func() { e.primSection(its) })
+	section("multi", func() { e.multiSection(its) })
+	section("subtle", func() { e.subtleSection() })
+
+	var names []string
+	for k := range timings {
+		names = append(names, k)
+	}
+	sort.Strings(names)
+	for _, k := range names {
+		fmt.Fprintf(os.Stderr, "c18: section %-9s %6.1fs\n", k, timings[k].Seconds())
+		o.Hist["seconds/"+k] = int(timings[k].Seconds() + 0.5)
+	}
+	names = names[:0]
+	for k := range e.classT {
+		names = append(names, k)
+	}
+	sort.Strings(names)
+	for _, k := range names {
+		fmt.Fprintf(os.Stderr, "c18:   class %-9s %6.1fs\n", k, e.classT[k].Seconds())
+	}
+	o.Hist["windows"] = e.nWin
+	o.Hist["concurrent-calls-compared"] = e.nCalls
+	fmt.Fprintf(os.Stderr, "c18: %d windows, %d concurrent calls compared, %d diverged lines, %.1fs\n", e.nWin, e.nCalls, e.diverge, time.Since(e.start).Seconds())
+}
+
+// ---------------------------------------------------------------- section 1
+
+func (e *engine) tryTarget(id, class string, cost int, big bool, mk maker, extra func(t *target, r *hlib.Rng, p *prims) error, light bool) {
+	var t *target
+	var err error
+	if p := hlib.Recover(func() { t, err = buildTarget(e.seed, id, class, cost, big, mk, extra) }); p != "" {
+		e.o.Violate("panic while building the sequential oracle of %s: %s", id, trunc(p, 200))
+		e.o.Count("oracle-panic/" + class)
+		return
+	}
+	if err != nil {
+		if err == errNoDirect {
+			return
+		}
+		e.o.Count("no-target/" + strings.SplitN(id, ":", 2)[0] + "/" + class)
+		if os.Getenv("C18_VERBOSE") != "" {
+			fmt.Fprintf(os.Stderr, "c18: no target %s: %v\n", id, err)
+		}
+		return
+	}
+	e.run(t, light)
+}
+
+func (e *engine) primSection(its []*item) {
+	th := hlib.Thorough()
+	directSeen := map[string]bool{}
+	kmSeen := map[string]bool{}
+	for _, it := range its {
+		cl := it.pk.Class
+		// keyset-level factory: every key, all goroutine counts
+		e.tryTarget("ks:"+cl+":"+it.token, cl, it.cost, it.big, it.mkKS(), nil, false)
+		// per-key full primitive: every key (quick tier: one goroutine count; slowest keys in
+		// the thorough tier only, they are the same objects the keyset factory wraps)
+		if th || it.cost <= 2 {
+			e.tryTarget("full:"+cl+":"+it.token, cl, it.cost, false, it.mkFull(), nil, !th)
+		}
+		// exported constructor called directly: one key per Go key type
+		ty := fmt.Sprintf("%T", it.key)
+		if (!directSeen[ty] || th) && (th || it.cost <= 2) {
+			directSeen[ty] = true
+			e.tryTarget("direct:"+cl+":"+it.token, cl, it.cost, false, it.mkDirect(), nil, !th)
+		}
+		// legacy key manager: one key per type URL
+		if (!kmSeen[it.pk.Type] || th) && (th || it.cost <= 2) {
+			kmSeen[it.pk.Type] = true
+			e.tryTarget("km:"+cl+":"+it.token, cl, it.cost, false, it.mkKM(), nil, !th)
+		}
+	}
+}
+
+func (e *engine) subtleSection() {
+	for _, s := range subtleSpecs(e.seed) {
+		e.tryTarget("subtle:"+s.class+":"+s.name, s.class, s.cost, s.big, s.mk, s.extra, false)
+	}
 }
